@@ -133,6 +133,11 @@ def _one(job):
             reads_perm = "quadrature_permutation[" in n_src[n_src.index(f"def tabulate_tensor_{nm}("):].split("\nclass ")[0].split("numba.carray(_quadrature_permutation")[1]
             report(f"{tag}: numba {k.integral_type} kernel declares quadrature_permutation large enough for its reads",
                    (not reads_perm) or (d.get("quadrature_permutation") or 0) >= 1, dict(declared=d.get("quadrature_permutation"), reads=reads_perm))
+    except RuntimeError as e:
+        if "numba backend does not support" in str(e):
+            # rejected with a Python exception during code generation: outside 'every form that FFCx accepts' for this backend
+            return dict(file=rel, opts=opts, results=[], rejected=str(e))
+        return dict(file=rel, opts=opts, error=f"{type(e).__name__}: {e}", tb=traceback.format_exc()[-1500:])
     except Exception as e:  # noqa: BLE001
         return dict(file=rel, opts=opts, error=f"{type(e).__name__}: {e}", tb=traceback.format_exc()[-1500:])
     return dict(file=rel, opts=opts, results=res)
@@ -158,6 +163,8 @@ def run_e3numba(rep, tier, seed):
         if "error" in f:
             rep.error(f"E3 numba {f['file']}{f['opts'] or ''}", f["error"] + "\n" + f.get("tb", ""))
             continue
+        if f.get("rejected"):
+            rep.extra.setdefault("rejected_by_numba_backend", []).append(f"{f['file']}{f['opts'] or ''}: {f['rejected']}")
         for name, ok, detail in f["results"]:
             n += 1
             if ok:
